@@ -92,6 +92,10 @@ func (w *monWAL) Save(h raftpb.HardState, es []raftpb.Entry, s raftpb.Snapshot) 
 	return err
 }
 
+// the history of the recorded finding: a replica that is added to a running group and boots the group from the
+// catalogue's current replica list (restart, catalogue snapshot) while its log store is still empty
+const pristineTag = " [a replica added to the running group was started from the catalogue's replica list while its log store was empty]"
+
 type c05Event struct {
 	Kind  string `json:"kind"` // write cut heal crash restart
 	Node  uint64 `json:"node,omitempty"`
@@ -304,7 +308,9 @@ func runC05Schedule(r *rng, nEvents int, script []string) (c05Case, error) {
 		cs.Acked = append(cs.Acked, acked)
 		cs.Events = append(cs.Events, c05Event{Kind: "write", Node: via, Id: op.Id, Op: op.Kind, Acked: acked})
 	}
-	broken := false // a replica could not be restarted: the schedule ends there
+	broken := false                      // a replica could not be restarted: the schedule ends there
+	joined := map[uint64]bool{}          // replicas added to the running group by the script
+	pristineRestart := map[uint64]bool{} // ... and restarted (from the catalogue's replica list) before their log store held anything
 	for _, step := range script {
 		if broken {
 			break
@@ -340,6 +346,11 @@ func runC05Schedule(r *rng, nEvents int, script []string) (c05Case, error) {
 			for _, m := range group {
 				if !alive[m] {
 					c.nodes[m].setUnreachable(false)
+					vmu.Lock()
+					if v := views[m]; joined[m] && (v == nil || v.saves == 0) {
+						pristineRestart[m] = true
+					}
+					vmu.Unlock()
 					if err := restart(m); err != nil {
 						viol = append(viol, fmt.Sprintf("restart of node %d failed: %v", m, err))
 						broken = true
@@ -349,9 +360,10 @@ func runC05Schedule(r *rng, nEvents int, script []string) (c05Case, error) {
 					cs.Events = append(cs.Events, c05Event{Kind: "restart", Node: m})
 				}
 			}
-		case 'A':
+		case 'A', 'a':
 			// node n becomes a replica of the running group: the catalogue change is applied on every node (on n itself
-			// partition.addNode starts the group's raft node over n's empty log store), then the leader proposes the join
+			// partition.addNode starts the group's raft node over n's empty log store), then - 'A' - the leader proposes
+			// the join ('a': the proposal is left to a later 'J' step, e.g. after n has crashed and restarted)
 			if inGroup(n) {
 				break
 			}
@@ -363,17 +375,24 @@ func runC05Schedule(r *rng, nEvents int, script []string) (c05Case, error) {
 			meta.Partitions[0].NodeIds = append(meta.Partitions[0].NodeIds, n)
 			group = append(group, n)
 			alive[n] = true
+			joined[n] = true
 			cs.Events = append(cs.Events, c05Event{Kind: "add-replica", Node: n})
 			if c.nodes[n].datasets[dsid].VerifRaft(0) == nil {
 				viol = append(viol, fmt.Sprintf("node %d was added to the partition and did not start its raft node", n))
 				broken = true
 				break
 			}
+			if step[0] == 'a' {
+				break
+			}
+			fallthrough
+		case 'J':
+			ensureLeader()
 			if l := leaderOf(); l == 0 {
 				viol = append(viol, "no leader to propose the join")
 				broken = true
 			} else if err := c.nodes[l].datasets[dsid].VerifRaft(0).ProposeJoinAndWait(n, ""); err != nil {
-				viol = append(viol, fmt.Sprintf("the join of node %d was not applied: %v", n, err))
+				viol = append(viol, fmt.Sprintf("the join of node %d was not applied: %v%s", n, err, map[bool]string{true: pristineTag, false: ""}[len(pristineRestart) > 0]))
 				broken = true
 			}
 		case 'S':
@@ -533,7 +552,7 @@ func runC05Schedule(r *rng, nEvents int, script []string) (c05Case, error) {
 				s := g.VerifStatus()
 				diag += fmt.Sprintf(" node %d: term=%d lead=%d commit=%d applied=%d state=%v;", n, s.Term, s.Lead, s.Commit, s.Applied, s.RaftState)
 			}
-			viol = append(viol, fmt.Sprintf("replicas did not converge after faults stopped: %s(%s)", dumps, diag))
+			viol = append(viol, fmt.Sprintf("replicas did not converge after faults stopped: %s(%s)%s", dumps, diag, map[bool]string{true: pristineTag, false: ""}[len(pristineRestart) > 0]))
 		}
 	}
 	// log matching on what is durable: a position at or below the durable commit index of two replicas holds the same term
@@ -554,7 +573,11 @@ func runC05Schedule(r *rng, nEvents int, script []string) (c05Case, error) {
 				tx, okx := vx.terms[i]
 				ty, oky := vy.terms[i]
 				if okx && oky && tx != ty {
-					viol = append(viol, fmt.Sprintf("forked history: nodes %d and %d both hold position %d as committed, with terms %d and %d", x, y, i, tx, ty))
+					tag := ""
+					if pristineRestart[x] || pristineRestart[y] {
+						tag = pristineTag
+					}
+					viol = append(viol, fmt.Sprintf("forked history: nodes %d and %d both hold position %d as committed, with terms %d and %d%s", x, y, i, tx, ty, tag))
 					break
 				}
 			}
@@ -606,6 +629,11 @@ func runC05(a *args) error {
 		case 4:
 			// a third replica joins a running two-replica group: it must take the group's log, not start one of its own
 			script = []string{"G12", "W1", "W2", "W1", "S", "A3", "S", "W1", "W3", "W2", "S"}
+		case 6:
+			// the recorded finding: node 3 becomes a replica of a running group; before its store holds anything it goes
+			// down and comes back booting the group as the allocator does after a catalogue snapshot - with the
+			// catalogue's current replica list; then the leader proposes the join
+			script = []string{"G12", "W1", "W2", "S", "a3", "K3", "S", "R", "S", "J3", "S", "W1", "W2", "S"}
 		case 5:
 			// one replica grows to two, then to three
 			script = []string{"G1", "W1", "W1", "W1", "S", "A2", "S", "W1", "W2", "A3", "S", "W3", "S"}
@@ -633,6 +661,10 @@ func runC05(a *args) error {
 		}
 		for _, v := range cs.Violations {
 			key := "raft-glue:" + strings.SplitN(v, ":", 2)[0]
+			if strings.HasSuffix(v, pristineTag) {
+				st.ImplFailures = append(st.ImplFailures, implFailure{Case: i, What: v, Key: "raft-glue:pristine-listed-replica-bootstraps", Input: cs.Events})
+				continue
+			}
 			if strings.Contains(v, "backwards") || strings.Contains(v, "older term") {
 				key = "raft-glue:hard-state-regressed"
 			} else if strings.Contains(v, "granted its vote") || strings.Contains(v, "acknowledged entries") || strings.Contains(v, "durable term") {
